@@ -5,7 +5,7 @@ d="$1"; p="$2"; tier="${3:-quick}"
 wt="${VERIF_SEED_WT:-/tmp/seedrepo}"
 git -C /repo worktree remove --force "$wt" >/dev/null 2>&1
 git -C /repo worktree add -q --detach "$wt" HEAD || exit 2
-( cd "$wt" && git apply "$d/patch.diff" ) || { echo "patch does not apply"; git -C /repo worktree remove --force "$wt"; exit 2; }
+( cd "$wt" && { git apply "$d/patch.diff" 2>/dev/null || git apply --3way "$d/patch.diff" >/dev/null 2>&1; } ) || { echo "patch does not apply"; git -C /repo worktree remove --force "$wt"; exit 2; }
 out=$(cd /verif && VERIF_REPO="$wt" VERIF_OUT_DIR="${VERIF_SEED_OUT:-/tmp/seedrun}" ./check "$p" "$tier" 2>&1); code=$?
 git -C /repo worktree remove --force "$wt"
 echo "$out" | grep -E "VIOLATION|signature|KNOWN|INCONCLUSIVE|BUILD" | head -8
